@@ -157,6 +157,20 @@ func (t *tr) render(p *packages.Package, e ast.Expr, depth int) string {
 		}
 		return t.render(p, x.X, depth) + "." + x.Sel.Name
 	case *ast.CallExpr:
+		// a zero-argument helper that only computes an address (`x := <expr>; return f(x, ..)`, result []byte) is rendered as
+		// what it returns, so that the witness subject does not depend on the helper's NAME (common.AlphabetAddress,
+		// common.CommitteeAddress, neofs.AlphabetAddress)
+		if len(x.Args) == 0 && depth < 3 {
+			if f := t.fn(p, x.Fun); f != nil {
+				if fd, ok := t.decls[f]; ok && fd.Body != nil && fd.Recv == nil && fd.Type.Params.NumFields() == 0 && returnsBytes(f) {
+					if ret := addressHelperResult(fd); ret != nil {
+						if cp := t.dpkg[f]; cp != nil {
+							return t.render(cp, ret, depth+1)
+						}
+					}
+				}
+			}
+		}
 		var as []string
 		for _, a := range x.Args {
 			as = append(as, t.render(p, a, depth))
@@ -188,6 +202,38 @@ func (t *tr) render(p *packages.Package, e ast.Expr, depth int) string {
 var reMultisig = regexp.MustCompile(`^contract\.CreateMultisigAccount\((.+),neo\.GetCommittee\(\)\)$`)
 var siteThresholds = map[string]bool{}
 var reNeofsAlpha = regexp.MustCompile(`^(neofs\.multiaddress\(|common\.Multiaddress\()neofs\.getAlphabetNodes\([a-zA-Z.]*(\(\))?\)(,false)?\)$`)
+
+func returnsBytes(f *types.Func) bool {
+	sig, ok := f.Type().(*types.Signature)
+	if !ok || sig.Results().Len() != 1 {
+		return false
+	}
+	sl, ok := sig.Results().At(0).Type().Underlying().(*types.Slice)
+	if !ok {
+		return false
+	}
+	b, ok := sl.Elem().Underlying().(*types.Basic)
+	return ok && b.Kind() == types.Uint8
+}
+
+// addressHelperResult: the body is `v1 := e1; ...; return e` with plain single definitions before one final return
+func addressHelperResult(fd *ast.FuncDecl) ast.Expr {
+	n := len(fd.Body.List)
+	if n == 0 {
+		return nil
+	}
+	for _, st := range fd.Body.List[:n-1] {
+		as, ok := st.(*ast.AssignStmt)
+		if !ok || as.Tok != token.DEFINE || len(as.Lhs) != 1 || len(as.Rhs) != 1 {
+			return nil
+		}
+	}
+	rs, ok := fd.Body.List[n-1].(*ast.ReturnStmt)
+	if !ok || len(rs.Results) != 1 {
+		return nil
+	}
+	return rs.Results[0]
+}
 
 // canonical names of the recurring witness subjects
 func canon(s string) string {
